@@ -121,12 +121,13 @@ CLAIMS = {
                 "implementation is compared against that extracted spec on spec-selected accepting inputs and perturbations for "
                 "every country, and against the line-by-line model. Per-country equivalence theorems 'the model's BBAN-level check "
                 "accepts a structurally conforming BBAN iff the published rule holds, and otherwise raises' are proved for "
-                "BA ME MK PT RS SI TL (C06_iso97), MR TN (C06_rib), BE (C06_be), PL EE ES NO CZ SK IS (C06_pl .. C06_is), each under "
-                "data obligations on the regenerated spec table (component positions, numeric classes, length, registered class); "
-                "partial: FR MC IT SM FI are covered by the spec-oracle stream only (the German methods are C07). "
+                "all 22 countries with a registered default algorithm: BA ME MK PT RS SI TL (C06_iso97), MR TN (C06_rib), BE (C06_be), "
+                "PL EE ES NO CZ SK IS (C06_pl .. C06_is), FI (C06_fi, Luhn), IT SM (C06_it, CIN tables), FR MC (C06_fr, RIB key with "
+                "letter substitution; 10^18, 10^13, 10^2 = 89, 15, 3 mod 97), each under data obligations on the regenerated spec "
+                "table (component positions, character classes, length, registered class). "
                 "Found and fixed: returns False on success (6f07eec), BA registered as BT (6931682).",
         "note": COMMON_NOTE + " Spec/NationalPublished.v is a hand transcription of the published rules (no network), cross-validated against the implementation on all 22 countries; Norway's '00' account rule is transcribed from the code.",
-        "technique": "Coq proof (structural theorems; per-country equivalences where listed) + extracted published-rule spec as oracle + correspondence",
+        "technique": "Coq proof (structural theorems; model = published rule for all 22 registered countries) + extracted published-rule spec as oracle + correspondence",
         "design_ref": "DESIGN.md §4 C06",
     },
     "C07": {
